@@ -63,7 +63,7 @@ def simplify_cases(draw, tier):
     mode = draw(st.sampled_from(MODES))
     system = []
     for _ in range(nl):
-        what = draw(st.sampled_from(['lin', 'lin', 'lin', 'rat', 'rat', 'pair', 'band'])) if system else \
+        what = draw(st.sampled_from(['lin'] * 14 + ['rat'] * 8 + ['band'] * 2 + ['pair'])) if system else \
             draw(st.sampled_from(['lin', 'lin', 'lin', 'rat', 'rat']))
         if what == 'lin':
             system.append(draw(E.linear_relations(n, mode, both_sides=(mode != 'dyadic' or draw(st.booleans())))))
@@ -84,7 +84,10 @@ def simplify_cases(draw, tier):
     style = {'minus': draw(st.booleans()), 'unit': draw(st.booleans())}
     target = None
     if draw(st.integers(0, 2)) == 0:
-        m = draw(st.integers(1, n))
+        # (two leading target names that are absent from a line send solve() into _solve_nonlinear's
+        # permutations of x0..xmax: with indices >= 9 only one target name is drawn)
+        big = scheme['kind'] == 'base' and max(scheme['index']) >= 9
+        m = 1 if big else draw(st.integers(1, n))
         target = list(draw(st.permutations(list(range(n)))))[:m]
     opts = {'target': target, 'cycle': draw(st.booleans()), 'all': draw(st.integers(0, 6)) != 0}
     pk = 'dyadic' if mode == 'dyadic' else 'mixed'
@@ -140,11 +143,19 @@ def _nudge(p, var, rel):
     return q
 
 
+IN_BAND = (1e-13, 1e-9)      # input tree: '=' holds at a vouched point within 1e-13, anything is decided from 1e-9
+OUT_BAND = (1e-10, 1e-9)     # output text: the same, with room for sympy's 15 printed digits
+
+
 def simplify_points(case):
-    """[(point, origin-tag)]: base points; per line, boundary points and +-1e-3; sign-factor zeros +-1e-3"""
-    system = case['system']; n = case['nvars']
+    """[(point, origin, vouched)]: base points; per line, points constructed on its boundary
+    ('on') and at a relative 1e-3 to either side along the moved variable ('side'); the exact
+    zero of every single-variable sign factor ('factor0') and +-1e-3.  vouched: the point was
+    put on the boundary of an '=' line and that is well conditioned (both side points are at
+    margin >= 1e-5 of that line), so the equality may be taken to hold there."""
+    system = case['system']
     base = [FL(p) for p in case['points']]
-    out = [(p, 'base') for p in base]
+    out = [(p, 'base', False) for p in base]
     for li, rel in enumerate(system):
         vs = E.variables_in(rel)
         for bi, p in enumerate(base[:3]):
@@ -154,9 +165,12 @@ def simplify_points(case):
             q = E.on_boundary(rel, p, var)
             if q is None:
                 continue
-            out.append((q, 'on'))
-            out.append((_nudge(q, var, 1e-3), 'side'))
-            out.append((_nudge(q, var, -1e-3), 'side'))
+            sides = [_nudge(q, var, 1e-3), _nudge(q, var, -1e-3)]
+            ms = [E.rel_margin(rel, x) for x in sides]
+            m0 = E.rel_margin(rel, q)
+            vouched = rel[2] == '=' and m0 is not None and m0 <= IN_BAND[0] and all(m is not None and m >= 1e-5 for m in ms)
+            out.append((q, 'on', vouched))
+            out.extend((x, 'side', False) for x in sides)
     seen = set()
     for rel in system:
         for f in E.sign_factors(rel):
@@ -164,33 +178,109 @@ def simplify_points(case):
             if len(vs) != 1 or repr(f) in seen:
                 continue
             seen.add(repr(f))
-            p = base[3]
-            q = E.on_boundary(['rel', f, '=', ['const', 0.0]], p, vs[0]) if f[0] != 'var' else \
-                [0.0 if i == vs[0] else v for i, v in enumerate(p)]
+            p = base[3]; v = vs[0]
+            if f[0] == 'var':
+                q = [0.0 if i == v else x for i, x in enumerate(p)]
+            else:
+                q = E.on_boundary(['rel', f, '=', ['const', 0.0]], p, v)
             if q is None:
                 continue
-            out.append((q, 'factor0'))
-            out.append((_nudge(q, vs[0], 1e-3) if q[vs[0]] != 0 else [1e-3 if i == vs[0] else v for i, v in enumerate(q)], 'side'))
-            out.append((_nudge(q, vs[0], -1e-3) if q[vs[0]] != 0 else [-1e-3 if i == vs[0] else v for i, v in enumerate(q)], 'side'))
+            out.append((q, 'factor0', False))
+            for d in (1e-3, -1e-3):
+                out.append((_nudge(q, v, d), 'side', False))
     return out
 
 
-def product_factor_vars(system):
-    """variables that are a bare factor of a product of two variable factors and occur in no denominator"""
-    inden = set()
-    for rel in system:
-        for d in E.denominators(rel):
-            inden.update(E.variables_in(d))
-    out = set()
-    for rel in system:
-        for m in E.subtrees(rel, 'mul'):
-            if E.variables_in(m[1]) and E.variables_in(m[2]):
-                for s in (m[1], m[2]):
-                    if s[0] == 'var':
-                        out.add(s[1])
-                    elif s[0] == 'mul':
-                        out.update(x[1] for x in s[1:] if x[0] == 'var')
-    return out - inden
+def on_split_boundary(cases, pdict):
+    """[(name, threshold)]: the output excludes name == threshold in *every* case by a condition that
+    comes from dividing by a factor -- either the cases split on its sign (some carry
+    'name > threshold', the others 'name < threshold') or every case carries 'name != threshold' --
+    and the point has name == threshold exactly.  Read from the output text only to *classify* a
+    failure for the known-finding predicate F10."""
+    per_case = []
+    for c in cases:
+        found = set()
+        for l in E.text_lines(c):
+            try:
+                lhs, cmp, rhs = E.split_line(l)
+                if cmp in ('<', '>', '!=') and lhs in pdict and pdict[lhs] == float(rhs):
+                    found.add((lhs, float(rhs), cmp))
+            except ValueError:
+                pass
+        per_case.append(found)
+    out = []
+    for (name, t) in sorted(set((n_, t_) for f in per_case for (n_, t_, _) in f)):
+        dirs = [set(c for (n_, t_, c) in f if (n_, t_) == (name, t)) for f in per_case]
+        if not all(dirs):
+            continue
+        kinds = set().union(*dirs)
+        if kinds == {'!='} or (len(cases) >= 2 and {'<', '>'} <= kinds):
+            out.append([name, t])
+    return out
+
+
+def pure_product(t):
+    """c * x_j * x_k with nothing added"""
+    if t[0] == 'mul':
+        return all(s[0] in ('var', 'const') or pure_product(s) for s in t[1:]) and len(E.variables_in(t)) >= 2
+    return False
+
+
+def degenerate_lines(system):
+    """lines that are in the class but degenerate: a product compared with 0 (the isolated form
+    x_j <cmp> 0/x_k loses the factor) and a/x_k = 0 (no solution)"""
+    prod0 = unsolvable = False
+    for r in system:
+        if r[3][0] == 'const' and float(r[3][1]) == 0:
+            if pure_product(r[1]):
+                prod0 = True
+            if r[2] == '=' and r[1][0] == 'div' and r[1][1][0] == 'const':
+                unsolvable = True
+    return prod0, unsolvable
+
+
+_OPPOSED = {('<', '>'), ('>', '<'), ('<=', '>='), ('>=', '<='), ('<', '>='), ('>=', '<'), ('>', '<='), ('<=', '>')}
+
+
+def opposed_text_pairs(text):
+    """pairs of input lines with identical left- and right-hand text and opposed comparators
+    (x >= c with x <= c, x < c with x > c, x > c with x <= c, ...)"""
+    parts = [E.split_line(l) for l in E.text_lines(text)]
+    out = []
+    for a in range(len(parts)):
+        for b in range(a):
+            if parts[a][0] == parts[b][0] and parts[a][2] == parts[b][2] and (parts[a][1], parts[b][1]) in _OPPOSED:
+                out.append([' '.join(parts[b]), ' '.join(parts[a])])
+    return out
+
+
+class _Watchdog(BaseException):
+    pass
+
+
+class watchdog(object):
+    """solve() falls back to _solve_nonlinear, which builds list(permutations(all variables x0..xmax))
+    before doing anything: with sparse indices >= 10 that never returns.  A repeating timer gets the
+    case out (solve() has a bare ``except:``, hence repeating); the case then counts as 'no result'."""
+    def __init__(self, seconds):
+        self.seconds = seconds; self.armed = False
+
+    def __enter__(self):
+        import signal, threading
+        if threading.current_thread() is threading.main_thread():
+            def fire(*a):
+                raise _Watchdog()
+            self.old = signal.signal(signal.SIGALRM, fire)
+            signal.setitimer(signal.ITIMER_REAL, self.seconds, 0.25)
+            self.armed = True
+        return self
+
+    def __exit__(self, *exc):
+        import signal
+        if self.armed:
+            signal.setitimer(signal.ITIMER_REAL, 0, 0)
+            signal.signal(signal.SIGALRM, self.old)
+        return False
 
 
 def call_simplify(case, ctx, names, variables, text):
@@ -204,7 +294,13 @@ def call_simplify(case, ctx, names, variables, text):
         kw['cycle'] = True
     lab.seed_rng(case['seed'])
     try:
-        out = simplify(text, **kw)
+        try:
+            with watchdog(4.0):
+                out = simplify(text, **kw)
+        except _Watchdog:
+            ctx.exclude('simplify-timeout')
+            ctx.label('no-result:timeout')
+            return None
     except Exception as e:                     # 'no result': the property is conditional on one
         ctx.exclude('simplify-raised:' + type(e).__name__)
         ctx.label('no-result:raised')
@@ -275,14 +371,19 @@ def run_simplify(case, ctx):
     if flip:
         ctx.label('flip')
 
-    pfv = product_factor_vars(system)
+    opposed = opposed_text_pairs(text)
+    prod0, unsolvable = degenerate_lines(system)
+    if prod0: ctx.label('product-vs-zero')
+    if unsolvable: ctx.label('a/x=0')
+    empty_line = any(c != '\n'.join(E.text_lines(c)) for c in cases)
+    if empty_line: ctx.label('output-has-empty-line')
     seen_true = seen_false = False
     npts = 0
-    for p, tag in simplify_points(case):
+    for p, tag, vouched in simplify_points(case):
         if not all(math.isfinite(v) for v in p):
             continue
         exact = exact_sys and exact_point(p)
-        want = E.system_truth(system, p, exact)
+        want = E.system_truth(system, p, exact, IN_BAND, vouched)
         if want is UNDEF:
             ctx.exclude('point:input-undefined')
             continue
@@ -290,7 +391,7 @@ def run_simplify(case, ctx):
             ctx.exclude('point:near-input-boundary(%s)' % tag)
             continue
         pd = E.point_dict(p, names)
-        per_case = [E.text_truth(c, pd, exact) for c in cases]
+        per_case = [E.text_truth(c, pd, exact, OUT_BAND, vouched) for c in cases]
         got = E.any_truth(per_case)
         if got is NEAR:
             ctx.exclude('point:near-output-boundary')
@@ -300,15 +401,17 @@ def run_simplify(case, ctx):
             ctx.label('output-line-undefined-at-point')
         if exact and tag == 'on':
             ctx.label('exact-on-boundary')
+        if vouched and not exact:
+            ctx.label('float-equality-on-boundary')
         if tag == 'factor0':
             ctx.label('factor-exactly-zero')
-        zero_factor = [names[i] for i in sorted(pfv) if p[i] == 0]
 
-        def detail(p=p, want=want, got=got, per_case=per_case, tag=tag, exact=exact, zero_factor=zero_factor):
-            return dict(input=text, output=cases, point=E.point_dict(p, names), input_holds=want,
+        def detail(p=p, want=want, got=got, per_case=per_case, tag=tag, exact=exact, pd=pd):
+            split = on_split_boundary(cases, pd) if (want is True and got is False) else []
+            return dict(input=text, output=cases, point=pd, input_holds=want,
                         cases_hold=per_case, origin=tag, exact=exact, options=opts,
-                        zero_product_factors=zero_factor,
-                        f10=bool(want is True and zero_factor))
+                        on_split_boundary=split, f10=bool(split),
+                        opposed_lines=opposed, product_vs_zero=prod0, output_has_empty_line=empty_line)
         if opts['all']:
             ctx.expect(got == want, 'C12.simplify', detail)
         else:
@@ -323,9 +426,34 @@ def run_simplify(case, ctx):
 
 
 def _known_f10(case, subcheck, detail):
-    """the sign-case split (x_k > 0 / x_k < 0) drops the slice x_k == 0 of a product-form input"""
+    """isolating a variable divides by a factor f; the result excludes f == 0 in every case (sign cases
+    f > 0 / f < 0 are strict only; equalities get 'f != 0') although the input is defined (does not
+    divide by f) and holds there"""
     return (subcheck == 'C12.simplify' and isinstance(detail, dict) and detail.get('f10') is True
             and detail.get('input_holds') is True and not any(v is True for v in detail.get('cases_hold', [True])))
+
+
+def _known_opposed(case, subcheck, detail):
+    """absval() merges the *input* lines with inclusive=True: x >= c with x <= c (or x > c with
+    x <= c, ...) are both deleted, x < c with x > c become x != c -- the result admits more
+    points than the input"""
+    return (subcheck in ('C12.simplify', 'C12.simplify_one') and isinstance(detail, dict)
+            and bool(detail.get('opposed_lines')) and detail.get('input_holds') is False)
+
+
+def _known_product_zero(case, subcheck, detail):
+    """x_j*x_k <cmp> 0: sympy's isolated form is x_j <cmp> 0 (0/x_k is simplified away), so no sign
+    split on x_k is made and the result ignores the sign of x_k"""
+    return (subcheck in ('C12.simplify', 'C12.simplify_one') and isinstance(detail, dict)
+            and detail.get('product_vs_zero') is True)
+
+
+def _known_unsolved(case, subcheck, detail):
+    """solve() returned '' for a line (a/x_k = 0 has no solution; sympy's check rejects some float
+    solutions): _simplify1 does not notice, the line becomes an empty line of the result and its
+    constraint is lost"""
+    return (subcheck in ('C12.simplify', 'C12.simplify_one') and isinstance(detail, dict)
+            and detail.get('output_has_empty_line') is True and detail.get('input_holds') is False)
 
 
 TESTS = [
@@ -333,4 +461,7 @@ TESTS = [
          examples={'quick': QUICK_SIMPLIFY, 'thorough': 40000}),
 ]
 
-KNOWN = {'F10-sign-split-drops-zero-factor': _known_f10}
+KNOWN = {'F10-sign-split-drops-zero-factor': _known_f10,
+         'simplify-merges-opposed-input-lines': _known_opposed,
+         'simplify-product-vs-zero-ignores-factor-sign': _known_product_zero,
+         'simplify-drops-unsolved-line': _known_unsolved}
